@@ -60,7 +60,9 @@ class TracepointConfigService:
         self._last_update = 0
         self._task_handler = None
         self._listeners: List[ConfigUpdateListener] = []
-        self._update_lock = threading.Lock()
+        # re-entrant: a change of the registrations asks for the update of the listeners while it holds the lock, and a task
+        # handler that runs its tasks at once (instead of on a worker) runs that update on the same thread
+        self._update_lock = threading.RLock()
 
     def update_no_change(self, ts):
         """
